@@ -63,21 +63,45 @@ Definition compute_step (step : option Z) : Z :=
 (* outcome of  (size_t)(int) constexpr_ceil( (float)s / step ) *)
 Inductive lenres :=
 | Len (z : Z)        (* the size_t stored in the result shape, in [0,2^64) *)
-| LenUB              (* float -> int conversion out of range: undefined behaviour *)
-| LenInexact.        (* operand not exactly representable in binary32: not modelled *)
+| LenUB.             (* float -> int conversion out of range: undefined behaviour *)
 
 Definition ceil_div (s t : Z) : Z := - ((- s) / t).
 
-(* binary32 has a 24-bit significand: integers of magnitude <= 2^24 are exact, and for
-   |s|, t <= 2^24 the correctly rounded quotient fl(s/t) has the same ceiling as s/t
-   (the distance of s/t from an integer it is not equal to is >= 1/t > half an ulp);
-   constexpr_ceil<int>(f): i = (int)f (truncation); f > i ? i+1 : i  = ceil f.
-   A size_t range that wrapped (>= 2^63) divided by a 32-bit step is >= 2^31: UB. *)
+(* binary32: nearest float to the positive rational p/q, ties to even, as (m, e) with value m * 2^e and
+   2^23 <= m <= 2^24.  No subnormals / overflow: every operand here lies in [2^-32, 2^64]. *)
+Definition f32_scale (p q e : Z) : Z * Z := (p * 2 ^ Z.max (- e) 0, q * 2 ^ Z.max e 0).
+Definition f32r (p q : Z) : Z * Z :=
+  let e0 := Z.log2 p - Z.log2 q - 24 in
+  let '(n0, d0) := f32_scale p q e0 in
+  let e := if n0 / d0 <? 2 ^ 24 then e0 else e0 + 1 in
+  let '(n, d) := f32_scale p q e in
+  let m0 := n / d in let r := n mod d in
+  let m := if (d <? 2 * r) || ((d =? 2 * r) && Z.odd m0) then m0 + 1 else m0 in
+  (m, e).
+(* (size_t)(int) constexpr_ceil( (float)s / (float)t ) computed as the hardware does, t > 0:
+   constexpr_ceil<int>(f): i = (int)f (truncation, UB when out of range); f > i ? i+1 : i *)
+Definition float_len_big (s t : Z) : lenres :=
+  if s =? 0 then Len 0 else
+  let '(ms, es) := f32r (Z.abs s) 1 in
+  let '(mt, et) := f32r t 1 in
+  let '(m, e) := f32r (ms * 2 ^ Z.max (es - et) 0) (mt * 2 ^ Z.max (et - es) 0) in
+  if 0 <=? e then
+    let v := (if s <? 0 then - (m * 2 ^ e) else m * 2 ^ e) in
+    if (v <? - 2 ^ 31) || (2 ^ 31 <=? v) then LenUB else Len (u64 v)
+  else
+    let d := 2 ^ (- e) in
+    let i0 := m / d in
+    if s <? 0 then Len (u64 (- i0))
+    else Len (u64 (if m mod d =? 0 then i0 else i0 + 1)).
+
+(* binary32 has a 24-bit significand: integers of magnitude <= 2^24 are exact, and for |s|, t <= 2^24 the correctly
+   rounded quotient fl(s/t) has the same ceiling as s/t (s/t differs from any integer it is not equal to by at least
+   1/t, which exceeds half an ulp of a quotient below 2^24/t); there the model uses the exact ceiling directly
+   (C05_float_model_consistent_on_sample cross-checks the two definitions); everywhere else it is float_len_big. *)
 Definition float_len (s t : Z) : lenres :=
   if t <=? 0 then LenUB                       (* division by zero: inf -> int *)
   else if (Z.abs s <=? 2 ^ 24) && (t <=? 2 ^ 24) then Len (u64 (ceil_div s t))
-  else if 2 ^ 63 <=? s then LenUB
-  else LenInexact.
+  else float_len_big s t.
 
 (* slice.hpp:970-992 (variadic) = 457-474 (dynamic): one kept axis *)
 Definition slice_len (si : Z) (start stop step : option Z) : lenres :=
